@@ -603,6 +603,7 @@ func (ex *Exec) mapUpdate(st *State, fr *Frame, x *ssa.MapUpdate) *forkReq {
 	if ks, ok := key.(*StrV); ok && len(ks.Alts) > 1 {
 		return ex.splitStr(st, fr, x.Key, ks)
 	}
+	ex.noteInitObjWrite(st, m.Obj)
 	mc := st.Heap[m.Obj].(*MapContent)
 	idx, conds := ex.mapFind(st, mc, key)
 	if idx >= 0 {
@@ -757,6 +758,27 @@ func (ex *Exec) strSlice(st *State, fr *Frame, x *ssa.Slice, sv *StrV) {
 			ok2, hasHi = true, false
 		}
 	}
+	if !ok1 && x.High == nil {
+		// s[len(s)-k:]: keep the last k bytes
+		if loT, isT := ex.eval(st, fr, x.Low).(*smt.Term); isT {
+			lenT := ex.strLen(sv)
+			for k := 0; k <= 16; k++ {
+				if ex.st.Sub(lenT, ex.st.BV(uint64(k), 64)) == loT {
+					var bad []*smt.Term
+					var alts []StrAlt
+					for _, a := range sv.Alts {
+						ex.ropeSuffix(st, ex.guard(a.G), a.P, k, nil, &alts, &bad)
+					}
+					if ex.mayPanic(st, x, "slice bounds out of range", ex.st.Or(bad...)) {
+						return
+					}
+					fr.Env[x] = ex.normStr(alts)
+					fr.IP++
+					return
+				}
+			}
+		}
+	}
 	if !ok1 || !ok2 {
 		panic(unsupported("string slice with symbolic bounds at " + site(x)))
 	}
@@ -817,6 +839,60 @@ func (ex *Exec) strSlice(st *State, fr *Frame, x *ssa.Slice, sv *StrV) {
 	}
 	fr.Env[x] = ex.normStr(alts)
 	fr.IP++
+}
+
+// ropeSuffix emits, into out, the last r bytes of the rope ps (under guard g)
+// followed by tail. Decimal pieces are split by rendered length; cutting a
+// numeral is supported only where it removes exactly the minus sign.
+func (ex *Exec) ropeSuffix(st *State, g *smt.Term, ps []Piece, r int, tail []Piece, out *[]StrAlt, bad *[]*smt.Term) {
+	s := ex.st
+	if r == 0 {
+		*out = append(*out, StrAlt{G: g, P: tail})
+		return
+	}
+	if len(ps) == 0 {
+		*bad = append(*bad, g)
+		return
+	}
+	p := ps[len(ps)-1]
+	rest := ps[:len(ps)-1]
+	switch {
+	case p.isLit():
+		if len(p.Lit) >= r {
+			*out = append(*out, StrAlt{G: g, P: append([]Piece{{Lit: p.Lit[len(p.Lit)-r:]}}, tail...)})
+			return
+		}
+		ex.ropeSuffix(st, g, rest, r-len(p.Lit), append([]Piece{p}, tail...), out, bad)
+	case p.Dec != nil:
+		dl := ex.decLen(p.Dec, p.Signed)
+		for n := 1; n <= 20; n++ {
+			gn := s.And(g, s.Eq(dl, s.BV(uint64(n), 64)))
+			if gn.IsFalse() || !ex.feasible(st, gn) {
+				continue
+			}
+			if n <= r {
+				ex.ropeSuffix(st, gn, rest, r-n, append([]Piece{p}, tail...), out, bad)
+				continue
+			}
+			neg := s.False
+			if p.Signed {
+				neg = s.SLt(p.Dec, s.BV(0, p.Dec.W))
+			}
+			if n == r+1 {
+				if gneg := s.And(gn, neg); !gneg.IsFalse() && ex.feasible(st, gneg) {
+					// the cut removes the minus sign
+					*out = append(*out, StrAlt{G: gneg, P: append([]Piece{{Dec: s.Neg(p.Dec), Signed: false}}, tail...)})
+				}
+				gn = s.And(gn, s.Not(neg))
+				if gn.IsFalse() || !ex.feasible(st, gn) {
+					continue
+				}
+			}
+			panic(unsupported("string slice cutting digits off a symbolic numeral"))
+		}
+	default:
+		panic(unsupported("string slice through a symbolic rune"))
+	}
 }
 
 // strIndex evaluates s[i] for a concrete index (shared by Index and Lookup).
